@@ -142,6 +142,10 @@ pub struct WUnit {
 pub struct WDwarf {
     pub big: bool,
     pub units: Vec<WUnit>,
+    /// (unit, entry index): a temporary child (with a small subtree) is added under that entry's parent just before
+    /// the entry itself, and deleted again with `delete_child` once all entries exist: the written forest is the
+    /// model's, with every surviving sibling in its place
+    pub dummies: Vec<(usize, usize)>,
 }
 
 impl WUnit {
@@ -309,7 +313,16 @@ pub fn build(m: &WDwarf) -> Built {
                 early.insert(i, unit.reserve());
             }
         }
+        let ui_now = unit_ids.len();
+        let mut to_delete: Vec<(w::UnitEntryId, w::UnitEntryId)> = Vec::new();
         for (i, e) in u.entries.iter().enumerate().skip(1) {
+            if !e.never_added && m.dummies.contains(&(ui_now, i)) {
+                let parent = ids[e.parent];
+                let dummy = unit.add(parent, gimli::DW_TAG_lexical_block);
+                let inner = unit.add(dummy, gimli::DW_TAG_variable);
+                unit.get_mut(inner).set(gimli::DW_AT_decl_line, w::AttributeValue::Udata(7));
+                to_delete.push((parent, dummy));
+            }
             let id = if let Some(id) = early.get(&i) {
                 if !e.never_added {
                     unit.add_reserved(*id, ids[e.parent], gimli::DwTag(e.tag));
@@ -319,6 +332,9 @@ pub fn build(m: &WDwarf) -> Built {
                 unit.add(ids[e.parent], gimli::DwTag(e.tag))
             };
             ids.push(id);
+        }
+        for (parent, dummy) in to_delete {
+            unit.get_mut(parent).delete_child(dummy);
         }
         // the root's tag
         let _ = &u.entries[0].tag;
